@@ -194,6 +194,8 @@ pub struct GenCfg {
     pub only_null: bool,
     /// intersections whose members all admit null
     pub inter_nullable: bool,
+    /// intersections of array / tuple types
+    pub inter_lists: bool,
 }
 
 impl Default for GenCfg {
@@ -212,6 +214,7 @@ impl Default for GenCfg {
             object_bias: 1,
             only_null: false,
             inter_nullable: true,
+            inter_lists: true,
         }
     }
 }
@@ -459,7 +462,34 @@ impl<'c> G<'c> {
         D::Object { props, index: None }
     }
 
+    fn list_for_intersection(&self, s: &mut Src) -> D {
+        let leaf = |s: &mut Src| match s.below(5) {
+            0 => D::Str,
+            1 => D::Num,
+            2 => D::StrLit(s.pick(&STR_LITS).to_string()),
+            3 => D::Union(vec![D::Str, D::Num]),
+            _ => D::Bool,
+        };
+        match s.below(3) {
+            0 => D::Array(Box::new(leaf(s))),
+            1 => {
+                let n = s.range(0, 3);
+                D::Tuple((0..n).map(|_| leaf(s)).collect(), None)
+            }
+            _ => {
+                let n = s.range(0, 2);
+                let prefix = (0..n).map(|_| leaf(s)).collect();
+                D::Tuple(prefix, Some(Box::new(leaf(s))))
+            }
+        }
+    }
+
     fn intersection(&self, s: &mut Src, depth: usize) -> D {
+        // now and then an intersection of list types (arrays and tuples of different lengths)
+        if self.cfg.inter_lists && s.chance(1, 8) {
+            let n = s.range(2, 3);
+            return D::Inter((0..n).map(|_| self.list_for_intersection(s)).collect());
+        }
         // mostly intersections of object types (the case the statement cares about)
         let n = s.range(2, 3);
         let mut parts = vec![];
@@ -469,6 +499,20 @@ impl<'c> G<'c> {
                 parts.push(D::Ref(cands[s.below(cands.len())]));
             } else {
                 parts.push(self.object(s, depth, false));
+            }
+        }
+        // now and then two members declare the same key with the same type but different optionality
+        // ({a: T} & {a?: T}): the merge of the members must not depend on their order
+        if s.chance(1, 5) && parts.len() >= 2 {
+            let donor = match &parts[0] {
+                D::Object { props, index: None } if !props.is_empty() => Some(props[s.below(props.len())].clone()),
+                _ => None,
+            };
+            if let (Some(mut p), D::Object { props, index: None }) = (donor, &mut parts[1]) {
+                if !props.iter().any(|q| q.key == p.key) {
+                    p.optional = !p.optional;
+                    props.push(p);
+                }
             }
         }
         // now and then every member also admits null: (A | null) & (B | null) = (A & B) | null, an intersection
@@ -504,16 +548,24 @@ impl<'c> G<'c> {
                 optional: false,
             }];
             let extra = s.range(0, 2);
+            // now and then a branch also carries an index signature (every named property, the tag included, is a
+            // string, so the object type is well-formed): the discriminated fast path must not lose it
+            let indexed = self.cfg.index && s.chance(1, 7);
             for _ in 0..extra {
                 let key = s.pick(&KEYS).to_string();
                 if key == tag || props.iter().any(|p| p.key == key) {
+                    continue;
+                }
+                if indexed {
+                    let ty = if s.below(2) == 0 { D::Str } else { D::StrLit(s.pick(&STR_LITS).to_string()) };
+                    props.push(Prop { key, ty, optional: false });
                     continue;
                 }
                 let optional = s.chance(1, 4);
                 let ty = self.ty(s, depth.saturating_sub(2), optional);
                 props.push(Prop { key, ty, optional });
             }
-            branches.push(D::Object { props, index: None });
+            branches.push(D::Object { props, index: if indexed { Some(Box::new(D::Str)) } else { None } });
         }
         D::Union(branches)
     }
